@@ -49,7 +49,11 @@ def sync_gosum():
     if not os.path.exists(dst) and os.path.exists(src):
         shutil.copy(src, dst)
     # VERIF_REPO: run against another checkout (background sweeps on a snapshot); the registered checks use /repo
-    if REPO != "/repo":
+    # (always written, so that a run against another checkout cannot leave the module pointing there)
+    with open(os.path.join(HARNESS, "go.mod")) as f:
+        mod = f.read()
+    want = "replace github.com/b2broker/simplefix-go => " + REPO
+    if want + "\n" not in mod + "\n":
         sh([GO, "mod", "edit", "-replace", "github.com/b2broker/simplefix-go=" + REPO], cwd=HARNESS, env=goenv(), timeout=60)
 
 
